@@ -728,15 +728,24 @@ char* MemoryLeakDetector::reallocMemory(TestMemoryAllocator* allocator, char* me
 #ifdef CPPUTEST_DISABLE_MEM_CORRUPTION_CHECK
    allocatNodesSeperately = true;
 #endif
+    MemoryLeakDetectorNode oldNode;
     if (memory) {
         MemoryLeakDetectorNode* node = memoryTable_.removeNode(memory);
         if (node == NULLPTR) {
             outputBuffer_.reportDeallocateNonAllocatedMemoryFailure(file, line, allocator, reporter_);
             return NULLPTR;
         }
+        oldNode = *node;
         checkForCorruption(node, file, line, allocator, allocatNodesSeperately);
     }
-    return reallocateMemoryAndLeakInformation(allocator, memory, size, file, line, allocatNodesSeperately);
+    char* new_memory = reallocateMemoryAndLeakInformation(allocator, memory, size, file, line, allocatNodesSeperately);
+    if (new_memory == NULLPTR && memory != NULLPTR) {
+        /* A failed realloc leaves the original block valid: keep tracking it */
+        MemoryLeakDetectorNode* node = createMemoryLeakAccountingInformation(allocator, oldNode.size_, memory, allocatNodesSeperately);
+        node->init(memory, oldNode.number_, oldNode.size_, oldNode.allocator_, oldNode.period_, oldNode.allocation_stage_, oldNode.file_, oldNode.line_);
+        memoryTable_.addNewNode(node);
+    }
+    return new_memory;
 }
 
 void MemoryLeakDetector::ConstructMemoryLeakReport(MemLeakPeriod period)
